@@ -100,6 +100,11 @@ CHECKS = {
             "no-value cases must echo / not satisfy; mismatches are classified by re-evaluating the reference with a recorded "
             "engine quirk switched on, so a recorded finding cannot hide a different defect.",
             "the reference encodes the documented precedence; forms whose grouping the documentation leaves open are parenthesised or not generated", "3/C04"),
+    "C02": ("runtime differential monitor against an independent reference interpreter written from Documentation/Template.md, over jointly generated values and template ASTs",
+            "Templates with every tag kind, nesting, loop-variable use, grouping and sorting are rendered by the real engine "
+            "in five build configurations (all character widths, SIMD variants, escape on/off, cached and uncached) and "
+            "compared byte for byte with the reference expansion.",
+            "the reference interpreter is a reading of the documentation; everything the documentation leaves open is not generated (evidence assumptions list it)", "3/C02"),
 }
 
 PENDING = {}
